@@ -38,9 +38,9 @@ def unit(job, variant, pi, seed, length, per_key):
 def main(ck: Check):
     quick = ck.tier == "quick"
     variants = [0] if quick else [0, 1, 2]
-    plans_per = 2 if quick else 6
+    plans_per = 2 if quick else 18
     length = (25, 40) if quick else (40, 80)
-    per_key = 30 if quick else 500
+    per_key = 30 if quick else 1500
     rng = ck.rng
     work = [(job, v, pi, ck.seed, rng.randint(*length), per_key) for job in JOBS for v in variants for pi in range(plans_per)]
     tot = {"calls": 0, "views": 0, "reducers": 0}
